@@ -204,3 +204,46 @@ pub fn cmd_mutate(a: &Args) {
                "files": files.iter().map(|p| p.to_string_lossy().to_string()).collect::<Vec<_>>()})
     );
 }
+
+/// fv wgen --streams <ndjson from WriterGen.tla>: valid streams written by the TLA+ specification itself
+/// (incl. wasted bits, escaped partitions, the 5-bit Rice method, every header code kind) through the
+/// library's parser.  Reports outcome classes; panics are C16 violations, wrong audio is reported.
+pub fn cmd_wgen(a: &Args) {
+    use std::io::BufRead;
+    let f = std::fs::File::open(a.get("streams", "/verif/.work/wgen.ndjson")).expect("streams");
+    let out = PathBuf::from(a.get("out", "/verif/.work/wgen"));
+    std::fs::create_dir_all(&out).unwrap();
+    let mut lines = vec![];
+    let mut tally: std::collections::BTreeMap<String, usize> = Default::default();
+    for (i, l) in std::io::BufReader::new(f).lines().enumerate() {
+        let v: Value = serde_json::from_str(&l.unwrap()).unwrap();
+        let bytes: Vec<u8> = v["bytes"].as_array().unwrap().iter().map(|x| x.as_u64().unwrap() as u8).collect();
+        let expect: Vec<Vec<i64>> = v["expect"].as_array().unwrap().iter().map(|c| c.as_array().unwrap().iter().map(|x| x.as_i64().unwrap()).collect()).collect();
+        let ch = expect.len().max(1);
+        let (outcome, same) = match parse(&bytes) {
+            Res::Err => ("err", true),
+            Res::Panic(_) => ("panic", false),
+            Res::Ok(frames) => {
+                let n = expect[0].len();
+                let ok = frames.len() == 1 && frames[0].len() == n * ch && (0..n).all(|t| (0..ch).all(|c| frames[0][t * ch + c] as i64 == expect[c][t]));
+                ("ok", ok)
+            }
+        };
+        let feat = &v["feat"];
+        let unsupported = feat["wasted"].as_bool().unwrap() || feat["escape"].as_bool().unwrap() || feat["method5"].as_bool().unwrap()
+            || feat["bigblock"].as_bool().unwrap() || feat["bigrate"].as_bool().unwrap();
+        *tally.entry(format!("{outcome}/{}/{}", if same { "audio-ok" } else { "AUDIO-DIFFERS" }, if unsupported { "beyond-flacenc" } else { "plain" })).or_default() += 1;
+        if outcome == "panic" || !same {
+            lines.push(json!({"ev": if outcome == "panic" { "panic" } else { "wrong" }, "id": format!("g{i}-{outcome}"), "class": "spec-written", "pos": 0, "mask": [], "trunc": -1,
+                              "msg": format!("features {feat}").chars().take(200).collect::<String>()}));
+        }
+    }
+    let mut sh = Shards::new(&out, "wgen");
+    lines.push(json!({"ev": "agg", "id": "wgen-all", "class": "spec-written", "total": tally.values().sum::<usize>(),
+                      "err": tally.iter().filter(|(k, _)| k.starts_with("err")).map(|(_, v)| *v).sum::<usize>(),
+                      "ok": tally.iter().filter(|(k, _)| k.starts_with("ok")).map(|(_, v)| *v).sum::<usize>(),
+                      "panic": tally.iter().filter(|(k, _)| k.starts_with("panic")).map(|(_, v)| *v).sum::<usize>()}));
+    sh.push(1, lines);
+    let files = sh.write(1);
+    println!("{}", json!({"tally": tally, "files": files.iter().map(|p| p.to_string_lossy().to_string()).collect::<Vec<_>>()}));
+}
